@@ -298,6 +298,8 @@ impl E {
 
     pub fn features(&self, out: &mut Vec<&'static str>) {
         match self {
+            // an integer literal beyond 2^53 does not survive the lexer (open finding F-C19-int-literal-through-f64)
+            E::Lit(Val::Int(i)) if i.unsigned_abs() > (1u64 << 53) => out.push("sql.int_literal_beyond_2p53"),
             E::Col(..) | E::Lit(..) => {}
             E::Cmp(_, a, b) => {
                 out.push("expr.cmp");
@@ -399,6 +401,13 @@ pub enum Query {
     Join { left: u8, right: u8, kind: JoinKind, on: Option<E>, pred: Option<E> },
     /// SELECT group cols, aggregates FROM t [WHERE p] [GROUP BY cols]
     Agg { table: u8, group: Vec<u8>, aggs: Vec<(AggFn, u8)>, pred: Option<E> },
+    /// SELECT a.*, b.*, c.* FROM t0 a <k0> JOIN t1 b ON on0 <k1> JOIN t2 c ON on1 [WHERE p]   (left-deep)
+    Join3 { tables: [u8; 3], kinds: [JoinKind; 2], ons: [Option<E>; 2], pred: Option<E> },
+    /// SELECT col FROM a [WHERE p] UNION [ALL] SELECT col FROM b [WHERE q]
+    Union { left: (u8, u8, Option<E>), right: (u8, u8, Option<E>), all: bool },
+    /// SELECT group col, aggregates … GROUP BY col ORDER BY col [DESC]
+    /// … with `agg_first` the aggregates come before the group column in the select list
+    AggOrdered { table: u8, group: u8, aggs: Vec<(AggFn, u8)>, desc: bool, agg_first: bool },
 }
 
 pub struct QOut {
@@ -464,6 +473,22 @@ impl Query {
                 let ctx: [&[Val]; 1] = [r.as_slice()];
                 pred.iter().any(|e| bad(e, &ctx))
             }),
+            Query::Join3 { tables: ts, ons, pred, .. } => {
+                let with_null = |t: &TableData| -> Vec<Vec<Val>> { t.rows.iter().cloned().chain(std::iter::once(vec![Val::Null; t.cols.len()])).collect() };
+                let (a, b, c) = (with_null(&tables[ts[0] as usize]), with_null(&tables[ts[1] as usize]), with_null(&tables[ts[2] as usize]));
+                a.iter().any(|x| b.iter().any(|y| {
+                    let c2: [&[Val]; 2] = [x, y];
+                    ons[0].iter().any(|e| bad(e, &c2)) || c.iter().any(|z| {
+                        let c3: [&[Val]; 3] = [x, y, z];
+                        ons[1].iter().chain(pred.iter()).any(|e| bad(e, &c3))
+                    })
+                }))
+            }
+            Query::Union { left, right, .. } => [left, right].iter().any(|(t, _, p)| tables[*t as usize].rows.iter().any(|r| {
+                let ctx: [&[Val]; 1] = [r.as_slice()];
+                p.iter().any(|e| bad(e, &ctx))
+            })),
+            Query::AggOrdered { .. } => false,
             Query::Join { left, right, on, pred, .. } => {
                 let (l, r) = (&tables[*left as usize], &tables[*right as usize]);
                 let nl: Vec<Val> = vec![Val::Null; l.cols.len()];
@@ -561,6 +586,94 @@ impl Query {
                     out = kept;
                 }
                 Ok(QOut { rows: out, order: vec![], window: None })
+            }
+            Query::Join3 { tables: ts, kinds, ons, pred } => {
+                let t: Vec<&TableData> = ts.iter().map(|i| &tables[*i as usize]).collect();
+                // generic left-deep step: rows are per-position vectors
+                fn step(acc: Vec<Vec<Vec<Val>>>, acc_widths: &[usize], right: &TableData, kind: JoinKind, on: &Option<E>) -> Result<Vec<Vec<Vec<Val>>>, EvalErr> {
+                    let mut out = vec![];
+                    let mut right_matched = vec![false; right.rows.len()];
+                    for l in &acc {
+                        let mut matched = false;
+                        for (ri, r) in right.rows.iter().enumerate() {
+                            let mut ctx: Vec<&[Val]> = l.iter().map(|v| v.as_slice()).collect();
+                            ctx.push(r.as_slice());
+                            let ok = match (kind, on) {
+                                (JoinKind::Cross, _) | (_, None) => true,
+                                (_, Some(p)) => p.eval(&ctx)? == Val::Bool(true),
+                            };
+                            if ok {
+                                matched = true;
+                                right_matched[ri] = true;
+                                let mut row = l.clone();
+                                row.push(r.clone());
+                                out.push(row);
+                            }
+                        }
+                        if !matched && matches!(kind, JoinKind::Left | JoinKind::Full) {
+                            let mut row = l.clone();
+                            row.push(vec![Val::Null; right.cols.len()]);
+                            out.push(row);
+                        }
+                    }
+                    if matches!(kind, JoinKind::Right | JoinKind::Full) {
+                        for (ri, r) in right.rows.iter().enumerate() {
+                            if !right_matched[ri] {
+                                let mut row: Vec<Vec<Val>> = acc_widths.iter().map(|w| vec![Val::Null; *w]).collect();
+                                row.push(r.clone());
+                                out.push(row);
+                            }
+                        }
+                    }
+                    Ok(out)
+                }
+                let acc0: Vec<Vec<Vec<Val>>> = t[0].rows.iter().map(|r| vec![r.clone()]).collect();
+                let acc1 = step(acc0, &[t[0].cols.len()], t[1], kinds[0], &ons[0])?;
+                let acc2 = step(acc1, &[t[0].cols.len(), t[1].cols.len()], t[2], kinds[1], &ons[1])?;
+                let mut out = vec![];
+                for row in acc2 {
+                    if let Some(p) = pred {
+                        let ctx: Vec<&[Val]> = row.iter().map(|v| v.as_slice()).collect();
+                        if p.eval(&ctx)? != Val::Bool(true) {
+                            continue;
+                        }
+                    }
+                    out.push(row.into_iter().flatten().collect());
+                }
+                Ok(QOut { rows: out, order: vec![], window: None })
+            }
+            Query::Union { left, right, all } => {
+                let mut out: Vec<Vec<Val>> = vec![];
+                for (t, c, p) in [left, right] {
+                    for r in &tables[*t as usize].rows {
+                        let ctx: [&[Val]; 1] = [r.as_slice()];
+                        if let Some(p) = p {
+                            if p.eval(&ctx)? != Val::Bool(true) {
+                                continue;
+                            }
+                        }
+                        out.push(vec![r[*c as usize].clone()]);
+                    }
+                }
+                if !*all {
+                    let mut seen = std::collections::BTreeSet::new();
+                    out.retain(|r| seen.insert(r[0].key()));
+                }
+                Ok(QOut { rows: out, order: vec![], window: None })
+            }
+            Query::AggOrdered { table, group, aggs, desc, agg_first } => {
+                let inner = Query::Agg { table: *table, group: vec![*group], aggs: aggs.clone(), pred: None }.eval(tables)?;
+                let mut rows = inner.rows;
+                rows.sort_by(|a, b| null_last_cmp(&a[0], &b[0], *desc));
+                if *agg_first {
+                    for r in rows.iter_mut() {
+                        let k = r.remove(0);
+                        r.push(k);
+                    }
+                    let last = aggs.len();
+                    return Ok(QOut { rows, order: vec![(last, *desc)], window: None });
+                }
+                Ok(QOut { rows, order: vec![(0, *desc)], window: None })
             }
             Query::Agg { table, group, aggs, pred } => {
                 let t = &tables[*table as usize];
@@ -672,6 +785,65 @@ impl Query {
                     s += &format!(" WHERE {}", p.sql(&names, full));
                 }
                 s
+            }
+            Query::Join3 { tables: ts, kinds, ons, pred } => {
+                let t: Vec<&TableData> = ts.iter().map(|i| &tables[*i as usize]).collect();
+                let al = ["a", "b", "c"];
+                let names = |p: u8, c: u8| format!("{}.{}", al[p as usize], t[p as usize].cols[c as usize].0);
+                let proj: Vec<String> = (0..3).flat_map(|p| t[p].cols.iter().map(move |c| format!("{}.{}", al[p], c.0)).collect::<Vec<_>>()).collect();
+                let kw = |k: JoinKind| match k {
+                    JoinKind::Inner => "JOIN",
+                    JoinKind::Left => "LEFT JOIN",
+                    JoinKind::Right => "RIGHT JOIN",
+                    JoinKind::Full => "FULL JOIN",
+                    JoinKind::Cross => "CROSS JOIN",
+                };
+                let mut s = format!("SELECT {} FROM {} AS a", proj.join(", "), t[0].name);
+                for j in 0..2 {
+                    s += &format!(" {} {} AS {}", kw(kinds[j]), t[j + 1].name, al[j + 1]);
+                    if let (false, Some(p)) = (matches!(kinds[j], JoinKind::Cross), &ons[j]) {
+                        s += &format!(" ON {}", p.sql(&names, full));
+                    }
+                }
+                if let Some(p) = pred {
+                    s += &format!(" WHERE {}", p.sql(&names, full));
+                }
+                s
+            }
+            Query::Union { left, right, all } => {
+                let part = |(t, c, p): &(u8, u8, Option<E>)| {
+                    let tb = &tables[*t as usize];
+                    let names = |_: u8, c: u8| tb.cols[c as usize].0.clone();
+                    let mut s = format!("SELECT {} FROM {}", tb.cols[*c as usize].0, tb.name);
+                    if let Some(p) = p {
+                        s += &format!(" WHERE {}", p.sql(&names, full));
+                    }
+                    s
+                };
+                format!("{} UNION {}{}", part(left), if *all { "ALL " } else { "" }, part(right))
+            }
+            Query::AggOrdered { table, group, aggs, desc, agg_first } => {
+                let t = &tables[*table as usize];
+                let g = t.cols[*group as usize].0.clone();
+                let mut items: Vec<String> = vec![];
+                for (f, c) in aggs {
+                    let cn = &t.cols[*c as usize].0;
+                    items.push(match f {
+                        AggFn::CountStar => "COUNT(*)".to_string(),
+                        AggFn::Count => format!("COUNT({cn})"),
+                        AggFn::Sum => format!("SUM({cn})"),
+                        AggFn::Min => format!("MIN({cn})"),
+                        AggFn::Max => format!("MAX({cn})"),
+                        AggFn::Avg => format!("AVG({cn})"),
+                    });
+                }
+                if *agg_first {
+                    items.push(g.clone());
+                } else {
+                    items.insert(0, g.clone());
+                }
+                let _ = full;
+                format!("SELECT {} FROM {} GROUP BY {g} ORDER BY {g}{}", items.join(", "), t.name, if *desc { " DESC" } else { "" })
             }
             Query::Agg { table, group, aggs, pred } => {
                 let t = &tables[*table as usize];
